@@ -17,11 +17,13 @@ def handler (mode : String) (line : String) : String :=
       | some t =>
         match svcOf? t with
         | some reqs =>
-            let (es, w) := svcRun [] reqs
+            let (es, w) := svcRunE [] reqs
             toStr (svcT es w reqs)
         | none =>
           match caseOf? t with
-          | some (cfg, ops) => toStr (traceT ((obsOfRun (run cfg ops)).map canonStep))
+          | some (cfg, ops, fd) =>
+              let r := run cfg ops
+              toStr (traceT ((obsOfRun r).map canonStep) (if fd then some (feedOfRun r) else none))
           | none => "(bad-case)"
   | "oracle" =>
       -- an ill-formed case carries no claim: accepted iff the implementation side refused it too
@@ -34,13 +36,13 @@ def handler (mode : String) (line : String) : String :=
           match svcOf? c with
           | some reqs =>
               match (parse os).bind svcTraceOf? with
-              | some (es, fs) => verdictStr (Spec.checkSvc reqs es fs)
+              | some (es, fs) => verdictStr (Spec.checkSvcE reqs es fs)
               | none => "fail step=0 clause=unparsable-observation"
           | none =>
             match caseOf? c with
-            | some (cfg, ops) =>
+            | some (cfg, ops, _) =>
                 match (parse os).bind traceOf? with
-                | some tr => verdictStr (Spec.check cfg ops tr)
+                | some (tr, feed) => verdictStr (Spec.checkAll cfg ops tr feed)
                 | none => "fail step=0 clause=unparsable-observation"
             | none => badCase os
       | _ => "(bad-line)"
